@@ -35,7 +35,7 @@ Print Assumptions C11_invmapfn_check_sound.
 (** * constructor *)
 (** the constructor stores a permutation of the supplied rows, sorted by (chromosome, physical, genetic) *)
 Theorem C11_constructor_sorts : forall input, Permutation (gm_rows input) input /\ StronglySorted key_le (gm_rows input).
-Proof. intros input. split; [apply sort_rows_perm | apply sort_rows_strongly]. Qed.
+Proof. exact constructor_sorts. Qed.
 Print Assumptions C11_constructor_sorts.
 
 (** nothing depends on the order in which the rows were supplied (no duplicated physical position on a chromosome):
@@ -55,7 +55,7 @@ Theorem C11_group_metadata : forall chrs,
   (let '(names, st, sp, ln) := group_meta chrs in
    length st = length names /\ length sp = length names /\ length ln = length names /\ decode_runs (combine names ln) = chrs)
   /\ (Sorted Z.le chrs -> Sorted Z.lt (map fst (runs chrs))).
-Proof. intros chrs. split; [apply group_meta_shape | apply runs_names_incr]. Qed.
+Proof. exact group_metadata. Qed.
 Print Assumptions C11_group_metadata.
 
 (** * distances *)
@@ -124,7 +124,7 @@ Theorem C11_interp_extrapolates : forall pts, (2 <= length pts)%nat -> incr (map
   (forall x, (fst (nth (n - 1) pts (0%Z, 0%Q)) <= x)%Z ->
      (interp1 pts x == chord x (fst (nth (n - 2) pts (0%Z, 0%Q))) (snd (nth (n - 2) pts (0%Z, 0%Q)))
                               (fst (nth (n - 1) pts (0%Z, 0%Q))) (snd (nth (n - 1) pts (0%Z, 0%Q))))%Q).
-Proof. intros pts Hn Hx n. split; [apply interp1_left | apply interp1_right]; assumption. Qed.
+Proof. exact interp_extrapolates. Qed.
 Print Assumptions C11_interp_extrapolates.
 
 (** on a congruent map interpolation preserves the order of physical positions (including extrapolated ones) *)
@@ -137,7 +137,7 @@ Print Assumptions C11_interp_order_preserving.
 Theorem C11_interp_off_map_missing : forall rows c x,
   (has_chr rows c = false -> interp_pos rows (c, x) = NaN) /\
   (has_chr rows c = true -> interp_pos rows (c, x) = Fin (interp1 (spline_knots rows c) x)).
-Proof. intros rows c x. split; [apply interp_off_map | apply interp_on_map]. Qed.
+Proof. exact interp_off_map_missing. Qed.
 Print Assumptions C11_interp_off_map_missing.
 
 (** the spline does not depend on the order of the arrays it is built from (interp1d sorts the knots): a map built with
@@ -146,11 +146,7 @@ Theorem C11_spline_independent_of_array_order : forall input, distinct_pos input
   (forall cx, interp_pos input cx = interp_pos (gm_rows input) cx) /\
   (forall c, spline_knots input c = knots (gm_rows input) c) /\
   (forall c, spline_knots (gm_rows input) c = knots (gm_rows input) c).
-Proof.
-  intros input ND. split; [intros cx; now apply interp_auto_group_independent|]. split; [intros c; now apply spline_knots_order_independent|].
-  intros c. apply spline_knots_sorted; [apply sort_rows_strongly|].
-  unfold distinct_pos, gm_rows. apply (Permutation_NoDup (l := map pos input)); [|exact ND]. apply Permutation_map. symmetry. apply sort_rows_perm.
-Qed.
+Proof. exact spline_independent_of_array_order. Qed.
 Print Assumptions C11_spline_independent_of_array_order.
 
 (** * crossover probabilities *)
@@ -199,13 +195,25 @@ Theorem C11_interp_gmap_meta_partial : forall input,
 Proof. exact interp_gmap_meta_partial. Qed.
 Print Assumptions C11_interp_gmap_meta_partial.
 
+(** * remove_discrepancies keeps the old spline (finding C11-stale-spline-after-remove-discrepancies): the reduced map can be
+      well-formed and congruent while the object still interpolates through the removed markers *)
+Theorem C11_stale_spline_refuted : exists rows c x i,
+  wf_map (rd_rows rows) /\ is_congruent (rd_rows rows) = true /\
+  let k := knots (rd_rows rows) c in
+  (S i < length k)%nat /\ (fst (nth i k (0%Z, 0%Q)) <= x <= fst (nth (S i) k (0%Z, 0%Q)))%Z /\
+  exists g, interp_pos rows (c, x) = Fin g /\
+    ~ (g == chord x (fst (nth i k (0%Z, 0%Q))) (snd (nth i k (0%Z, 0%Q))) (fst (nth (S i) k (0%Z, 0%Q))) (snd (nth (S i) k (0%Z, 0%Q))))%Q.
+Proof. exact stale_spline_refuted. Qed.
+Print Assumptions C11_stale_spline_refuted.
+
+(** nothing is removed from a congruent map, so its spline stays valid; after build_spline() on the reduced rows
+    [C11_interp_linear_between] applies to [rd_rows rows] *)
+Theorem C11_stale_spline_partial : forall rows, is_congruent rows = true -> rd_rows rows = rows.
+Proof. exact stale_spline_partial. Qed.
+Print Assumptions C11_stale_spline_partial.
+
 (** non-vacuity: a concrete two-chromosome, six-marker map (supplied out of order) is well-formed and congruent *)
-Example C11_hyps_satisfiable : wf_map (gm_rows wit_rows) /\ is_congruent (gm_rows wit_rows) = true /\ distinct_pos wit_rows
-  /\ has_chr (gm_rows wit_rows) 1 = true /\ incr (map fst (knots (gm_rows wit_rows) 1))
+Example C11_hyps_satisfiable : (wf_map (gm_rows wit_rows) /\ is_congruent (gm_rows wit_rows) = true /\ distinct_pos wit_rows
+  /\ has_chr (gm_rows wit_rows) 1 = true /\ incr (map fst (knots (gm_rows wit_rows) 1)))
   /\ Forall (fun p : Z * PrimFloat.float => finite64 (snd p)) [(5%Z, 0%float); (9%Z, 0.25%float); (20%Z, 0.5%float)].
-Proof.
-  destruct wit_wf as [W C]. split; [exact W|]. split; [exact C|]. split.
-  - unfold distinct_pos, wit_rows. cbn. repeat constructor; cbn; intuition discriminate.
-  - split; [reflexivity|]. split; [destruct W as (S & ND & _); now apply knots_incr|].
-    repeat constructor; reflexivity.
-Qed.
+Proof. split; [exact hyps_satisfiable | repeat constructor; reflexivity]. Qed.
